@@ -13,8 +13,8 @@ CONSTANTS
   MaxCrash = 0
   MaxAcks = 2
   MaxGen = 4
-  MaxNotify = 2
-  MaxEnds = 2
+  MaxNotify = 3
+  MaxEnds = 3
   MaxFail = 0
   AutoReset = "earliest"
   Finite = FALSE
@@ -28,8 +28,8 @@ CONSTANTS
   FailSaves = FALSE
   Focus = FALSE
   Record = TRUE
-  D = 45
   Gaps = {}
   Bugs = {}
+  D = 55
 INVARIANTS DumpSched
 CHECK_DEADLOCK FALSE
